@@ -167,6 +167,26 @@ def run(rep: vlib.Reporter, tier: str, seed: int) -> None:
         for prob in r["problems"]:
             rep.finding(f"e2e:{json.dumps(r['spec'], sort_keys=True)}:{prob}", prob, {"kind": "e2e", "spec": r["spec"], "problem": prob})
             found = True
+    # MULTIPROCESSING family (harness/c13_mp.py): streamed = batch, stop after k for every k, exception in the consumer, and what an
+    # abandoned / failed generator leaves behind (worker processes, datasets in the long-lived Flight store).  On plans without
+    # unordered conflicting steps, outside the planner defect domains, preferring plans in which one compute-framework object runs
+    # several feature-group steps the first of which is requested (its upload outlives the step).
+    from harness import c13_mp
+
+    def mp_rank(r: Dict[str, Any]) -> int:
+        fg = [s for s in r["plan"]["steps"] if s["kind"] == "FG"]
+        multi = any(a["requested"] and any(b is not a and b["cfw"] == a["cfw"] and set(a["uuids"]) & set(b["req"]) for b in fg) for a in fg)
+        return (0 if multi else 1) * 10 + (0 if len([s for s in fg if s["requested"]]) >= 2 else 1)
+    mp_cand = [r for i, r in enumerate(recs) if i not in conflicted and not r["in_kf"] and r["sync_stream"]["status"] != "raised"
+               and not any(s["kind"] == "TFS" and s["from_cfw"] != "PyArrowTable" for s in r["plan"]["steps"])
+               and not any(g["kind"] == "api" for g in r["spec"]["groups"])]
+    mp_cand.sort(key=mp_rank)
+    mp_probs, mp_info = c13_mp.mp_family([r["spec"] for r in mp_cand], 30 if tier == "thorough" else 3)
+    for spec_, prob in mp_probs:
+        rep.finding(f"e2e-mp:{json.dumps(spec_, sort_keys=True)}:{prob}", prob, {"kind": "e2e-mp", "spec": spec_, "problem": prob})
+        found = True
+    n_runs += mp_info["runs"]
+    dist["multiprocessing_family"] = {**mp_info, "candidates": len(mp_cand), "with_multi_step_object": sum(1 for r in mp_cand if mp_rank(r) < 10)}
     for i in bad[:5]:
         r = recs[i]
         if r["sync_stream"]["status"] == "raised" and not r["sync_stream"]["raised"]:
@@ -190,6 +210,10 @@ def run(rep: vlib.Reporter, tier: str, seed: int) -> None:
 def replay(path: str) -> int:
     r = json.load(open(path))["replay"]
     install()
+    if r.get("kind") == "e2e-mp":
+        from harness import c13_mp
+        print(json.dumps(c13_mp.one(r["spec"]), indent=1, default=str))
+        return 0
     rec = one(r["spec"], random.Random(0))
     print(json.dumps({k: rec[k] for k in ("sync_stream", "modes", "problems")}, indent=1, default=str))
     return 0
